@@ -61,8 +61,8 @@ def fixDflts (r : Rule) (p : Inst) : Rule :=
   -- a single rule without exceptions: `multi` is false, only a SHIFT makes the defaults explicit
   if r.shift = 0 then r
   else if p.m = 0 ∨ p.m > 12 ∨ p.d = 0 ∨ p.d > 31 then r
-  else if r.freq = 1 ∧ !r.wk.isEmpty ∧ r.dow.isEmpty ∧ r.doy.isEmpty ∧ r.dom.isEmpty ∧ r.mon.isEmpty ∧ r.scale = 0 then
-    -- BYWEEKNO on its own goes with DTSTART's weekday
+  else if r.freq = 1 ∧ !r.wk.isEmpty ∧ r.dow.isEmpty ∧ r.doy.isEmpty ∧ r.dom.isEmpty ∧ r.scale = 0 then
+    -- BYWEEKNO on its own, or limited to months, goes with DTSTART's weekday
     { r with dow := [(ymdGetWday p.y p.m p.d : Int)] }
   else if !r.dow.isEmpty ∨ !r.doy.isEmpty ∨ !r.easter.isEmpty ∨ !r.dom.isEmpty ∨ !r.wk.isEmpty then r
   else
